@@ -212,6 +212,70 @@ def lazyForced (calls : List (String × String)) : Bool :=
 def guardsExist (mutexFields : List (String × String)) : Bool :=
   guardedFields.all fun g => mutexFields.any fun m => g.2.endsWith ("." ++ m.2)
 
+/-! ### Shape of the critical sections and of the lazy guards (premises of the theorems of Part 2 / of `prePublication`)
+
+`lazy_init_schedule_independent` is about a machine whose check ("is there an entry?") and store happen in ONE critical
+section. "Every access holds the mutex" (`accessOk`) does not imply that: a function may take the lock twice and publish
+a placeholder in between (no data race, wrong answers). So the regenerated shape of every critical section is checked
+too: one `Lock()`, one deferred `Unlock()` per function and mutex, and every field used under a mutex is used in exactly
+one critical section of the function. -/
+
+/-- functions that implement "check, compute, store" under one lock (the machine `lstep`) -/
+def lockedLazyInits : List (String × String) := [("Plan.abstractAlternative", "p.abstractMu")]
+
+def singleCriticalSections (crit : List (String × String × Nat × Nat × String))
+    (regions : List (String × String × String × Nat)) : Bool :=
+  crit.all (fun c => c.2.2.1 == 1 && c.2.2.2.1 == 1 && c.2.2.2.2 == "deferred") &&
+  regions.all (fun r => r.2.2.2 == 1) &&
+  lockedLazyInits.all (fun l => crit.any (fun c => c.1 == l.1 && c.2.1 == l.2)) &&
+  -- every function that touches a guarded field has a critical section on that field's mutex
+  guardedFields.all (fun g => regions.any (fun r => (r.1, r.2.1) == g.1))
+
+/-- The "already initialised" test each lazy initialiser starts with, as read in /repo: a flag set together with the
+value (`initialisedFields`, `initialisedInterfaces`, `initalizedTypes`, `init`), or "the table is non-empty" for the enum
+lookup tables (an enum has at least one value, so a built table is never empty and is never rebuilt). A changed guard
+(e.g. one that stays false for some schemas, so that the table is rebuilt and re-published at request time) breaks this. -/
+def expectedLazyGuards : List (String × String × String) := [
+  ("Enum.getNameLookup", "len(gt.nameLookup) > 0", "return"),
+  ("Enum.getValueLookup", "len(gt.valuesLookup) > 0", "return"),
+  ("InputObject.Fields", "!gt.init", "do"),
+  ("Interface.Fields", "it.initialisedFields", "return"),
+  ("Object.Fields", "gt.initialisedFields", "return"),
+  ("Object.Interfaces", "gt.initialisedInterfaces", "return"),
+  ("Union.Types", "ut.initalizedTypes", "return")
+]
+
+def lazyGuardsAsClassified (guards : List (String × String × String)) : Bool :=
+  guards.filter (fun g => lazyOnceFuncs.contains g.1) == expectedLazyGuards &&
+  lazyOnceFuncs.all (fun f => expectedLazyGuards.any (fun g => g.1 == f))
+
+/-! The mutant the shape obligation is there for, as a machine: the lock is taken twice — lookup and CLAIM the slot with a
+placeholder, unlock, compute outside, lock, store — and a present placeholder is read as a finished entry. -/
+structure SState (V : Type) where
+  mu : Option Tid
+  cell : Option (Option V)         -- none = no entry; some none = placeholder / "nothing"; some (some v) = entry
+  pc : Tid → Nat
+  out : Tid → Option (Option V)
+
+def SState.init {V : Type} : SState V := { mu := none, cell := none, pc := fun _ => 0, out := fun _ => none }
+
+def sstep {V : Type} (init : V) (s : SState V) (t : Tid) : SState V :=
+  match s.pc t with
+  | 0 => match s.mu with                      -- Lock
+    | none => { s with mu := some t, pc := upd s.pc t 1 }
+    | some _ => s
+  | 1 => match s.cell with                    -- lookup, claim on miss, Unlock
+    | some e => { s with mu := none, out := upd s.out t (some e), pc := upd s.pc t 5 }
+    | none => { s with mu := none, cell := some none, pc := upd s.pc t 2 }
+  | 2 => { s with pc := upd s.pc t 3 }        -- compute without the lock
+  | 3 => match s.mu with                      -- Lock again
+    | none => { s with mu := some t, pc := upd s.pc t 4 }
+    | some _ => s
+  | 4 => { s with mu := none, cell := some (some init), out := upd s.out t (some (some init)), pc := upd s.pc t 5 }
+  | _ => s
+
+def srun {V : Type} (init : V) (sched : List Tid) : SState V := sched.foldl (sstep init) SState.init
+
 def sitesRespectDiscipline (lockFacts fieldAccesses : List (String × String × String × String))
     (atomicFields : List (String × String × String)) (mutexFields : List (String × String))
     (calls : List (String × String)) : Bool :=
